@@ -925,6 +925,11 @@ impl<'a, R: Read, E: Encryption> Builder<'a, R, E> {
             } else {
                 self.to_writer(rng, &mut enc)?;
             }
+
+            // finish explicitly, `Drop` would swallow errors of the underlying writer
+            enc.finish()?;
+            drop(enc);
+            line_wrapper.finish()?;
         }
 
         // write footer
